@@ -75,6 +75,7 @@ def run(ctx):
         "histories: after up to 2 `route add` lines any 2 (thorough 3) further commands out of route add / route del <svc> <src> / route weight (weights {dyn, 50 %, 100 %}, 2 services) - every script is a case; the expected weights, ring shares and cycles are those of the targets the route has at the end, whatever state earlier commands left behind",
         "several routes in one table (same path on different hosts, ':port' routes): lookups are interleaved following every schedule of up to 4 (thorough 5) steps over 3 routes, repeated until every route has seen two ring lengths; each route's own consecutive lookups must form exact cycles and be periodic with its ring length",
         "long histories: the cursor is a natural number (WeightsRR!PeriodicAtAnyCount); an OPTIONAL probe positions the real counter (uint64 field 'total' of Route, found by reflection; skipped and counted when absent) a few lookups below 2^32, 2^32+2^31 and 2^63 and requires the next three ring lengths of lookups to form exact cycles and be periodic; the wrap of the 64-bit counter itself (2^64 lookups) is outside the claim",
+        "listener wiring: proxy.strategy=rr (non-default), listeners of kind http, tcp, tcp+sni and https+tcp+sni started by main.startServers, three routes per kind with 2, 4 and 3 targets without fixed weight; one connection = one lookup (WeightsRR!Connect), every ring length of consecutive connections of a route must reach every target exactly once; https (TLS-terminating), grpc and tcp-dynamic listeners, weighted rings through the listeners and strategy rnd are not driven through the wiring",
         "random picker: the statistical share is not checked; with the random source replaced by a counter every ring index is drawn once and the picks must be exactly the ring's members",
         "the ring-filling loop is model-checked on rings of 12 and 30 slots (MaxSlots is a constant of the specification, 10 000 in fabio); the real 10 000-slot ring is bound through its observable properties (no empty slot, occupancy, cursor order)",
     ]
@@ -173,6 +174,25 @@ def run(ctx):
     ctx.cover("multi", traces_validated_against_impl=ms["tables"], evaluations=ms["picks"], samples=ms.get("samples") or [])
     ctx.take_failures(m, "c04-multi")
 
+    # 4c. through the listener wiring of the binary (WeightsRR!Connect): config.Load with
+    #     proxy.strategy=rr and one listener per kind, main.startServers, real loopback upstreams;
+    #     every schedule is followed by connections on http, tcp, tcp+sni and https+tcp+sni listeners
+    wv = ctx.gotest(".", ["main/c04_test.go"], "^TestVerifC04Wire$", timeout=900,
+                    env={"VERIF_IN": cases, "VERIF_SCHED": sched, "VERIF_SCHED_EVERY": ctx.pick(3, 1)})
+    if not ctx.need_go_ok(wv, "C04 listener wiring"):
+        return
+    if wv.of_kind("error"):
+        ctx.inconclusive("C04 listener wiring: %s" % wv.of_kind("error")[0].get("msg"))
+        return
+    ws = wv.summary
+    ctx.log("listener wiring (rr): %d connections through %d listener kinds following %d schedules, %d ring-length windows checked, %d failed, %.0fs"
+            % (ws["connections"], ws["kinds"], ws["schedules"], ws["windows"], ws["fails"], wv.wall))
+    if ws["connections"] == 0 or ws["windows"] == 0:
+        ctx.inconclusive("C04 listener wiring is vacuous")
+        return
+    ctx.cover("wire", traces_validated_against_impl=ws["schedules"], evaluations=ws["windows"])
+    ctx.take_failures(wv, "c04-wire")
+
     # 5. binding self-test: corrupted expectations must be rejected by the harness
     victim = None
     with open(cases) as fh:
@@ -207,6 +227,9 @@ def replay(ctx, rp):
     one = os.path.join(ctx.tmp, "c04.replay")
     case = rp["replay"]["case"]
     vf.write_ndjson(one, [case])
+    if isinstance(case, dict) and "wire" in case:
+        ctx.inconclusive("a listener-wiring violation is re-examined by running the check again (bin/check C04): it depends on the whole connection history of the listener")
+        return
     if isinstance(case, dict) and "multi" in case:
         r = ctx.gotest("route", FILES, "^TestVerifC04Multi$", env={"VERIF_IN": one, "VERIF_WORKERS": 1}, timeout=600)
         if not ctx.need_go_ok(r, "C04 interleaved replay"):
